@@ -10,9 +10,9 @@ set_option linter.unnecessarySeqFocus false
 namespace MongoModel.Proofs.C04
 open MongoModel MongoModel.Expr MongoModel.Spec
 
-/-- `$abs $ceil $floor $trunc` (no boolean operand; `$ceil/$floor/$trunc` not on a double) -/
+/-- `$abs $ceil $floor $trunc` (no boolean operand): the result keeps the operand's type -/
 theorem unary_pure (k : String) (hk : k = "$abs" ∨ k = "$ceil" ∨ k = "$floor" ∨ k = "$trunc")
-    (a : Option Val) (hb : isBoolO a = false) (hd : k ≠ "$abs" → isDblO a = false)
+    (a : Option Val) (hb : isBoolO a = false)
     (r : Val) (hs : arith1 k a = .ok r) : unaryArithOpt k a = .ok r := by
   unfold arith1 at hs
   cases a with
@@ -26,11 +26,8 @@ theorem unary_pure (k : String) (hk : k = "$abs" ∨ k = "$ceil" ∨ k = "$floor
         simpa [unaryArithOpt, toPyNum, unaryArith] using hs
     | dbl m e =>
       simp only [nullish, Bool.false_eq_true, if_false] at hs
-      rcases hk with rfl | rfl | rfl | rfl
-      · simpa [unaryArithOpt, toPyNum, unaryArith] using hs
-      · simp [isDblO] at hd
-      · simp [isDblO] at hd
-      · simp [isDblO] at hd
+      rcases hk with rfl | rfl | rfl | rfl <;>
+        simpa [unaryArithOpt, toPyNum, unaryArith] using hs
     | bool b => simp [isBoolO] at hb
     | _ => simp [nullish] at hs
 
